@@ -61,7 +61,19 @@ struct Run {
     panic: String,
 }
 
-fn run(files: &[String], cfg_text: &str) -> Run {
+/// `inp`: how the input location is spelled (MC_Filters!InputForms); the single-file forms need a one-file tree
+fn locations(files: &[String], inp: &str) -> (String, String) {
+    let mirrored = |f: &str| f.replacen("src/", "out/", 1);
+    match inp {
+        "dotdir" => ("./src".to_string(), "./out".to_string()),
+        "file" if files.len() == 1 => (files[0].clone(), mirrored(&files[0])),
+        "dotfile" if files.len() == 1 => (format!("./{}", files[0]), mirrored(&files[0])),
+        "updownfile" if files.len() == 1 => (files[0].replacen("src/", "src/x/../", 1), mirrored(&files[0])),
+        _ => ("src".to_string(), "out".to_string()),
+    }
+}
+
+fn run(files: &[String], cfg_text: &str, inp: &str) -> Run {
     let resources = Resources::from_memory();
     for f in files {
         resources.write(f, &source_text(f)).expect("write source");
@@ -70,7 +82,8 @@ fn run(files: &[String], cfg_text: &str) -> Run {
         Ok(c) => c,
         Err(e) => return Run { outs: files.iter().map(|_| "!config".to_string()).collect(), errors: format!("!config:{}", e), panic: String::new() },
     };
-    let r = guarded(|| darklua_core::process(&resources, Options::new(Path::new("src")).with_output("out").with_configuration(config)));
+    let (input, output) = locations(files, inp);
+    let r = guarded(|| darklua_core::process(&resources, Options::new(Path::new(&input)).with_output(&output).with_configuration(config)));
     let mut errors = String::new();
     let mut panic = String::new();
     match r {
@@ -98,12 +111,13 @@ pub fn main(args: &[String]) -> i32 {
         let files: Vec<String> = c["files"].as_array().unwrap().iter().map(|f| f["s"].as_str().unwrap().to_string()).collect();
         let key = files.join("|");
         if !ref_cache.contains_key(&key) {
-            let runs: Vec<Run> = (0u8..8).map(|m| run(&files, &config_text(&c, m, false))).collect();
+            let runs: Vec<Run> = (0u8..8).map(|m| run(&files, &config_text(&c, m, false), "dir")).collect();
             ref_cache.insert(key.clone(), runs);
         }
         let text = config_text(&c, 7, true);
-        let main_run = run(&files, &text);
-        let del: Vec<Run> = (0..3).map(|k| run(&files, &config_text(&c, 7 & !(1u8 << k), true))).collect();
+        let inp = c["inp"].as_str().unwrap_or("dir");
+        let main_run = run(&files, &text, inp);
+        let del: Vec<Run> = (0..3).map(|k| run(&files, &config_text(&c, 7 & !(1u8 << k), true), inp)).collect();
         let refs = &ref_cache[&key];
         let mut fobs = Vec::new();
         for (i, f) in c["files"].as_array().unwrap().iter().enumerate() {
